@@ -89,6 +89,15 @@ def r12_guess_from_the_curve(ctx):
     ctx.floor("hops of the initial-parameter guess", n, 2)
 
 
+
+def r_no_handout(ctx):
+    """the documented get-edit-fit workflow (`p = get_initial_fit_parameters();
+    p[..].value = ..; fit_model(params_initial=p)`) only leads to a new fit if
+    the stored settings are never handed out: shared with C10-R3"""
+    from .c10 import r3_no_handout
+    r3_no_handout(ctx)
+
+
 RULES = [
     ("C01-R1", "a supplied initial guess reaches the optimiser",
      fitclauses.clause_guess_delivery),
@@ -117,4 +126,7 @@ RULES = [
     ("C01-R12", "initial parameters that are not stored are guessed from "
      "the curve (the dataset reaches guess_initial_parameters)",
      r12_guess_from_the_curve),
+    ("C01-R13", "stored settings are never handed out by reference (an "
+     "edited copy given back to fit_model must be seen as a change)",
+     r_no_handout),
 ]
